@@ -25,20 +25,22 @@ import (
 
 // DefaultTrack is the tracking set of DESIGN.md §3.5.
 func DefaultTrack() *TrackSpec {
-	t := &TrackSpec{Types: map[string]bool{}, Maps: map[string]bool{}}
+	t := &TrackSpec{Types: map[string]bool{}, Maps: map[string]bool{}, Slices: map[string]bool{}}
 	for _, n := range []string{"Entry", "MetaData", "Flag", "Shard", "Store", "LoadingStore", "TinyLfu", "Slru", "List", "TimerWheel",
 		"CountMinSketch", "PolicyBuffers", "call", "Group", "RBMutex", "Clock", "SecondaryCacheItem"} {
 		t.Types[n] = true
 	}
 	t.Maps["Shard.hashmap"] = true
 	t.Maps["Group.m"] = true
+	t.Slices["PolicyBuffers.Returned"] = true
 	return t
 }
 
 type probe struct {
-	fn   string // R, W, MR, MW
+	fn   string // R, W, MR, MW, SR, SW
 	expr ast.Expr
 	site string
+	data bool // SR/SW: the location is the backing array of the slice expr (unsafe.SliceData), not &expr
 }
 
 type tracker struct {
@@ -46,13 +48,16 @@ type tracker struct {
 	r      *rw
 	fields map[*types.Var]string // origin field var -> "Type.field"
 	maps   map[*types.Var]bool
+	slices map[*types.Var]bool
+	alias  map[types.Object]string // local variable holding (a re-slicing of) a tracked slice field's header
 }
 
 func (r *rw) trackFile(f *ast.File) {
 	if r.info == nil || r.track == nil {
 		return
 	}
-	tk := &tracker{probed: map[ast.Expr]bool{}, r: r, fields: map[*types.Var]string{}, maps: map[*types.Var]bool{}}
+	tk := &tracker{probed: map[ast.Expr]bool{}, r: r, fields: map[*types.Var]string{}, maps: map[*types.Var]bool{},
+		slices: map[*types.Var]bool{}, alias: map[types.Object]string{}}
 	// collect the field objects of the tracked named struct types declared in this package
 	seen := map[*types.Package]bool{}
 	for _, obj := range r.info.Defs {
@@ -78,6 +83,9 @@ func (r *rw) trackFile(f *ast.File) {
 				tk.fields[fv] = name + "." + fv.Name()
 				if r.track.Maps[name+"."+fv.Name()] {
 					tk.maps[fv] = true
+				}
+				if r.track.Slices[name+"."+fv.Name()] {
+					tk.slices[fv] = true
 				}
 			}
 		}
@@ -198,7 +206,10 @@ func (tk *tracker) emit(p probe) ast.Stmt {
 	tk.probed[p.expr] = true
 	tk.r.usedVrt, tk.r.usedUns = true, true
 	tk.r.stats["probe:"+p.fn]++
-	addr := &ast.UnaryExpr{Op: token.AND, X: p.expr}
+	var addr ast.Expr = &ast.UnaryExpr{Op: token.AND, X: p.expr}
+	if p.data {
+		addr = call(sel("unsafe", "SliceData"), p.expr)
+	}
 	return &ast.ExprStmt{X: call(sel("vrt", p.fn),
 		call(sel("unsafe", "Pointer"), addr),
 		&ast.BasicLit{Kind: token.STRING, Value: strconv.Quote(p.site)})}
@@ -221,6 +232,11 @@ func (tk *tracker) stmt(s ast.Stmt, top bool) []probe {
 		tk.stmt(x.Stmt, false)
 	case *ast.ExprStmt:
 		add(tk.reads(x.X))
+		{
+			var sp []probe
+			tk.sliceReads(x.X, &sp)
+			add(sp)
+		}
 		tk.funcLits(x) // func() {...}() and calls that take a function literal
 	case *ast.SendStmt:
 		add(tk.reads(x.Chan))
@@ -228,6 +244,11 @@ func (tk *tracker) stmt(s ast.Stmt, top bool) []probe {
 	case *ast.IncDecStmt:
 		add(tk.reads(x.X))
 		add(tk.writes(x.X))
+		{
+			var sp []probe
+			tk.sliceWrites(x.X, nil, &sp)
+			add(sp)
+		}
 	case *ast.AssignStmt:
 		if tk.calls(x) > 1 {
 			tk.funcLits(x)
@@ -241,6 +262,28 @@ func (tk *tracker) stmt(s ast.Stmt, top bool) []probe {
 				add(tk.reads(e)) // op-assignment reads the target too
 			}
 			add(tk.writes(e))
+		}
+		{
+			var sp []probe
+			for _, e := range x.Rhs {
+				tk.sliceReads(e, &sp)
+			}
+			for i, e := range x.Lhs {
+				var rhs ast.Expr
+				if len(x.Rhs) == len(x.Lhs) {
+					rhs = x.Rhs[i]
+				}
+				tk.sliceWrites(e, rhs, &sp)
+				if ix, ok := unparen(e).(*ast.IndexExpr); ok {
+					tk.sliceReads(ix.Index, &sp)
+				}
+			}
+			add(sp)
+			if len(x.Rhs) == len(x.Lhs) {
+				for i, e := range x.Lhs {
+					tk.noteAlias(e, x.Rhs[i])
+				}
+			}
 		}
 		tk.funcLits(x)
 	case *ast.ReturnStmt:
@@ -274,6 +317,11 @@ func (tk *tracker) stmt(s ast.Stmt, top bool) []probe {
 		tk.block(x.Body)
 	case *ast.RangeStmt:
 		add(tk.reads(x.X))
+		if x.Value != nil { // ranging with an index only loads no element
+			if b, name := tk.sliceOf(x.X); b != nil {
+				add([]probe{{"SR", b, tk.site(x.X, name, "range"), true}})
+			}
+		}
 		if ms := tk.mapOf(x.X); ms != nil {
 			add([]probe{*ms})
 		}
@@ -477,7 +525,7 @@ func (tk *tracker) walk(e ast.Expr, asValue bool, ps *[]probe) {
 	case *ast.SelectorExpr:
 		if fv, name := tk.fieldOf(x); fv != nil {
 			if asValue && tk.pure(x.X) && tk.addressable(x) {
-				*ps = append(*ps, probe{"R", x, tk.site(x, name, "read")})
+				*ps = append(*ps, probe{fn: "R", expr: x, site: tk.site(x, name, "read")})
 			}
 			// the base: a struct value embedded in its parent is only address arithmetic
 			tk.walkBase(x.X, ps)
@@ -588,7 +636,121 @@ func (tk *tracker) mapOf(e ast.Expr) *probe {
 	if fv == nil || !tk.maps[fv] || !tk.pure(s.X) || !tk.addressable(s) {
 		return nil
 	}
-	return &probe{"MR", s, tk.site(s, name, "map-read")}
+	return &probe{fn: "MR", expr: s, site: tk.site(s, name, "map-read")}
+}
+
+// sliceOf: e (possibly re-sliced / parenthesised) is a tracked slice field or a local alias of one; returns the
+// expression whose backing array is the location, and the field's name.
+func (tk *tracker) sliceOf(e ast.Expr) (ast.Expr, string) {
+	for {
+		switch x := e.(type) {
+		case *ast.ParenExpr:
+			e = x.X
+			continue
+		case *ast.SliceExpr:
+			e = x.X
+			continue
+		}
+		break
+	}
+	switch x := e.(type) {
+	case *ast.SelectorExpr:
+		if fv, name := tk.fieldOf(x); fv != nil && tk.slices[fv] && tk.pure(x.X) {
+			return x, name
+		}
+	case *ast.Ident:
+		if obj := tk.r.info.ObjectOf(x); obj != nil {
+			if name, ok := tk.alias[obj]; ok {
+				return x, name
+			}
+		}
+	}
+	return nil, ""
+}
+
+// elemOf: e is X[i] or X[i].f... with X a tracked slice: the element access.
+func (tk *tracker) elemOf(e ast.Expr) (ast.Expr, string) {
+	for {
+		switch x := e.(type) {
+		case *ast.ParenExpr:
+			e = x.X
+			continue
+		case *ast.SelectorExpr:
+			if _, isField := tk.r.info.Selections[x]; isField {
+				e = x.X
+				continue
+			}
+		case *ast.IndexExpr:
+			return tk.sliceOf(x.X)
+		}
+		return nil, ""
+	}
+}
+
+// sliceReads: element loads, range, append sources and call arguments that hand a tracked slice on.
+func (tk *tracker) sliceReads(n ast.Node, ps *[]probe) {
+	if n == nil || len(tk.slices) == 0 {
+		return
+	}
+	ast.Inspect(n, func(c ast.Node) bool {
+		switch x := c.(type) {
+		case *ast.FuncLit:
+			return false
+		case *ast.IndexExpr:
+			if b, name := tk.sliceOf(x.X); b != nil {
+				*ps = append(*ps, probe{"SR", b, tk.site(x, name, "elem-read"), true})
+			}
+		case *ast.CallExpr:
+			if tk.pureCall(x) {
+				if id, ok := unparen(x.Fun).(*ast.Ident); ok && (id.Name == "len" || id.Name == "cap") {
+					return false // the header only
+				}
+				return true
+			}
+			for _, a := range x.Args {
+				if b, name := tk.sliceOf(a); b != nil {
+					*ps = append(*ps, probe{"SR", b, tk.site(a, name, "elems-passed-to-call"), true})
+				}
+			}
+		}
+		return true
+	})
+}
+
+// sliceWrites: element stores of an assignment target, and append into a tracked slice.
+func (tk *tracker) sliceWrites(lhs ast.Expr, rhs ast.Expr, ps *[]probe) {
+	if len(tk.slices) == 0 {
+		return
+	}
+	if lhs != nil {
+		if b, name := tk.elemOf(lhs); b != nil {
+			*ps = append(*ps, probe{"SW", b, tk.site(lhs, name, "elem-write"), true})
+		}
+	}
+	if c, ok := unparen(rhs).(*ast.CallExpr); ok && rhs != nil {
+		if id, ok := unparen(c.Fun).(*ast.Ident); ok && id.Name == "append" && tk.pureCall(c) && len(c.Args) > 0 {
+			if b, name := tk.sliceOf(c.Args[0]); b != nil {
+				*ps = append(*ps, probe{"SW", b, tk.site(c, name, "append"), true})
+			}
+		}
+	}
+}
+
+// noteAlias records `local := x.f` / `local = x.f[:0]` for a tracked slice field (after the statement's own probes).
+func (tk *tracker) noteAlias(lhs, rhs ast.Expr) {
+	id, ok := lhs.(*ast.Ident)
+	if !ok || id.Name == "_" {
+		return
+	}
+	obj := tk.r.info.ObjectOf(id)
+	if obj == nil {
+		return
+	}
+	if _, name := tk.sliceOf(rhs); name != "" {
+		tk.alias[obj] = name
+	} else {
+		delete(tk.alias, obj)
+	}
 }
 
 // writes collects the plain writes performed by assigning to e.
@@ -598,9 +760,9 @@ func (tk *tracker) writes(e ast.Expr) []probe {
 	case *ast.SelectorExpr:
 		if fv, name := tk.fieldOf(x); fv != nil {
 			if tk.pure(x.X) && tk.addressable(x) {
-				ps = append(ps, probe{"W", x, tk.site(x, name, "write")})
+				ps = append(ps, probe{fn: "W", expr: x, site: tk.site(x, name, "write")})
 				if tk.maps[fv] {
-					ps = append(ps, probe{"MW", x, tk.site(x, name, "map-replace")})
+					ps = append(ps, probe{fn: "MW", expr: x, site: tk.site(x, name, "map-replace")})
 				}
 			}
 			tk.walkBase(x.X, &ps)
